@@ -90,7 +90,7 @@ def rule_eqcover(ctx):
     f = ctx.facts()
     r = RuleResult('EQCOVER', '`==` of every source type compares every data field (values differing in a name, map, '
                               'replacement or option compare unequal)')
-    r.floor = 13
+    r.floor = 10
     for adt in types_with(f, EQ):
         eq = impl_method(f, adt, EQ, 'eq')
         touched = fields_touched(f, eq, adt)
@@ -108,7 +108,7 @@ def rule_eqcover(ctx):
 def rule_hash_in_eq(ctx):
     f = ctx.facts()
     r = RuleResult('HASH-IN-EQ', 'a == b implies hash(a) == hash(b): Hash reads no data field that Eq ignores')
-    r.floor = 13
+    r.floor = 10
     for adt in types_with(f, EQ, HASH):
         eq = impl_method(f, adt, EQ, 'eq')
         h = impl_method(f, adt, HASH, 'hash')
@@ -130,7 +130,7 @@ def rule_hashcover(ctx):
     f = ctx.facts()
     r = RuleResult('HASHCOVER', 'every data field that `==` compares is fed to the hasher (named exemptions only), so '
                                 'sources differing in anything that changes source()/buffer()/map() hash differently up to collisions')
-    r.floor = 13
+    r.floor = 10
     for adt in types_with(f, EQ, HASH):
         eq = impl_method(f, adt, EQ, 'eq')
         h = impl_method(f, adt, HASH, 'hash')
@@ -160,7 +160,7 @@ def rule_hashcover(ctx):
 def rule_clonecover(ctx):
     f = ctx.facts()
     r = RuleResult('CLONECOVER', 'a clone carries every data field of its original (hand-written Clone impls)')
-    r.floor = 3
+    r.floor = 2
     cache = {(a, fl) for a, fl, _ in anchors.cache_fields(f)}
     for adt in types_with(f, CLONE):
         cl = impl_method(f, adt, CLONE, 'clone')
@@ -200,7 +200,7 @@ def rule_hashdet(ctx):
     f = ctx.facts()
     r = RuleResult('HASHDET', 'hashing is address-, order- and process-independent: no pointer/TypeId/random/time/thread input, '
                               'no iteration over a hash map, only FxHasher constructed')
-    r.floor = 8
+    r.floor = 5
     for b in f.body_list:
         if b.promoted is not None or b.d['kind'] == 'Closure' or b.d.get('impl_trait') != HASH:
             continue
@@ -232,5 +232,50 @@ def rule_hashdet(ctx):
         for site, why in bad:
             r.violation('%s:%s' % (b.path, why.split('`')[1] if '`' in why else why), site, b.path,
                         'hash depends on a process-/address-/order-dependent input: ' + why)
+    r.check_floor()
+    return r
+
+
+SKIPPING_ADAPTORS = {'filter', 'filter_map', 'skip', 'skip_while', 'take', 'take_while', 'step_by', 'dedup', 'dedup_by',
+                     'dedup_by_key', 'unique', 'nth', 'last', 'find', 'find_map', 'flatten', 'chunks', 'windows', 'split_first',
+                     'split_last', 'first', 'get'}
+
+
+def rule_hashall(ctx):
+    f = ctx.facts()
+    r = RuleResult('HASHALL', 'a container\'s hash covers every element: Hash impls iterate their element vectors without skipping '
+                              'adaptors and hash the element on every iteration (a child that differs — even an empty one with another file '
+                              'name — changes the hash)')
+    r.floor = 2
+    from .panics import loops, loop_blocks
+    for b in f.body_list:
+        if b.promoted is not None or b.d['kind'] == 'Closure' or b.d.get('impl_trait') != HASH:
+            continue
+        adt = b.d.get('impl_adt')
+        if adt not in f.adts:
+            continue
+        members = [m for ms in cone(f, b, adt).values() for m in ms]
+        lps = loops(b)
+        if not lps:
+            continue
+        bad = []
+        for m in members:
+            for pt, t in m.calls():
+                c = t.get('callee')
+                if c and c['name'] in SKIPPING_ADAPTORS and (c.get('trait') or '').endswith('Iterator') or \
+                        (c and c['name'] in SKIPPING_ADAPTORS and 'itertools' in c.get('path', '')):
+                    if m is b:
+                        bad.append((t['s'], 'iterator adaptor `%s` drops or reorders elements' % c['name']))
+        for h, srcs in lps.items():
+            blk = loop_blocks(b, h, srcs)
+            hashes = [pt for pt, t in b.calls() if pt[0] in blk and t.get('callee') and t['callee']['name'] == 'hash']
+            if not any(all(b.dominates(hp, (s_, 0)) for s_ in srcs) for hp in hashes):
+                bad.append((b.span(), 'the loop does not hash its element on every iteration'))
+        ok = not bad
+        r.site('%s: element loop hashes every element' % b.path, b.span(), 'ok' if ok else 'violation')
+        for site, why in bad:
+            r.violation('%s:%s' % (b.path, why.split('`')[1] if '`' in why else 'conditional'), site, b.path,
+                        'container hash does not cover every element: ' + why + ' — trees that differ in the skipped elements '
+                        '(and in map()) always collide')
     r.check_floor()
     return r
